@@ -234,7 +234,10 @@ func (self *Core) runInstruction(instruction compiler.Instruction) *value.VmInte
 			fmt.Printf("Memory write access `%v` at %x\n", *v, abs)
 		}
 
-		self.Memory[abs] = v
+		// Every variable owns its cell: the popped cell may be a field of an object or an element of a list
+		// (`let a = o.x;`), which an assignment through that object or list would otherwise change too.
+		owned := *v
+		self.Memory[abs] = &owned
 	case compiler.Opcode_SetGlobImm:
 		i := instruction.(compiler.OneStringInstruction)
 		v := self.pop()
